@@ -130,14 +130,17 @@ def check_C07(A: Analysis, tier):
                                 A.p.loc(ev.func, ev.node))
     rules.append(rd)
 
-    re_ = Rule("C07", "C07.e", "an identifier claim waits on the key and list it then appends", floor=6)
+    re_ = Rule("C07", "C07.e", "an identifier claim waits, in a re-checking loop, on the key and list it then appends", floor=6)
     for op in A.lockops:
         if op.kind == "acquire" and op.cls != "metadata_locked_docs":
             re_.inst(f"{op.func.qual}:{op.node.lineno} acquire {op.cls} ({op.mode})")
             re_.ob()
             for code, msg, node in op.anomalies:
-                if code in ("wait-key-differs", "wait-list-differs", "no-wait"):
-                    re_.fail(op.func, op.node.body[0] if op.node.body else op.node, msg, A.p.loc(op.func, node))
+                if code in ("wait-key-differs", "wait-list-differs", "no-wait", "wait-not-loop"):
+                    re_.fail(op.func, op.node.body[0] if op.node.body else op.node,
+                             msg + (": a woken waiter claims the identifier without re-checking that it is free (all identifiers of a class share "
+                                    "one condition), so two calls hold the same claim" if code == "wait-not-loop" else ""),
+                             A.p.loc(op.func, node))
     rules.append(re_)
     return rules
 
